@@ -8,8 +8,8 @@
 (*           probe widgets wrapped around every child;                      *)
 (*   paint - a surface tree rendered by the real App.Run onto a fake        *)
 (*           console: the terminal commands are stepped through the RefTerm *)
-(*           oracle and at "paint" the reference screen must equal          *)
-(*           Surface!Screen(tree) (RefTerm!FrameOK).                        *)
+(*           oracle and at "paint" the reference screen must conform to     *)
+(*           Surface!Want(tree) (Surface!ScreenConforms).                   *)
 (* A panic anywhere is a rejection.                                         *)
 EXTENDS RefTerm, TLC, Json, IOUtils
 
@@ -25,12 +25,26 @@ Init == l = 1 /\ t = InitTerm(1, 1, FALSE) /\ failed = FALSE
 
 ToSet(seq) == {seq[i] : i \in 1..Len(seq)}
 
-(* the application cells RefTerm!FrameOK expects: <<g,w,fg,bg,ul,us,at,ln,tw>> *)
-AppOf(scr, rows, cols) ==
-  [y \in 1..rows |-> [x \in 1..cols |-> <<scr[y][x][1], 1, scr[y][x][2], 0, 0, 0, 0, 0, 1>>]]
+(* what the reference terminal displays, in the vocabulary of Surface!CellConforms *)
+Shown(tt) ==
+  [y \in 1..tt.rows |-> [x \in 1..tt.cols |->
+     LET c == tt.grid[y][x] IN
+     IF c.k = "g" THEN [k |-> "g", g |-> c.g, w |-> c.w, fg |-> c.st.fg,
+                        plain |-> (c.st.bg = 0 /\ c.st.ul = 0 /\ c.st.us = 0 /\ c.st.at = 0 /\ c.ln = 0)]
+     ELSE [k |-> c.k]]]
 
-PaintEv(e, tt) == [app |-> AppOf(S!Screen(e.tree, tt.rows, tt.cols), tt.rows, tt.cols),
-                   cur |-> <<0, 0, 0, 0>>, rgb |-> e.rgb, su |-> e.su]
+(* a painted frame: the flush is clean, the cursor hidden, and every cell   *)
+(* conforms to Surface!Want(tree); a tree the property says nothing about   *)
+(* (Surface!Judged) is judged on flush and cursor only                      *)
+PaintWhy(e, tt) ==
+  LET want == S!Want(e.tree, tt.rows, tt.cols) IN
+  IF tt.pen # DefaultPen THEN "pen-not-reset"
+  ELSE IF tt.link # 0 THEN "hyperlink-open"
+  ELSE IF tt.sync THEN "sync-unbalanced"
+  ELSE IF ~CursorOK(tt, <<0, 0, 0, 0>>) THEN "cursor"
+  ELSE IF ~S!Judged(want, tt.rows, tt.cols) THEN ""
+  ELSE IF S!ScreenConforms(Shown(tt), want, tt.rows, tt.cols) THEN ""
+  ELSE "cells"
 
 (* verdict of one observation: "" = conforms, otherwise the failing clause  *)
 Why(e, tt) ==
@@ -43,11 +57,11 @@ Why(e, tt) ==
                                  ELSE IF ~L!ProbesOK(e.probes) THEN "child-larger-than-max"
                                  ELSE IF ~L!TreeOK(e.root) THEN "not-centred"
                                  ELSE ""
-         [] e.ev = "paint"    -> IF FrameOK(tt, PaintEv(e, tt)) THEN "" ELSE FrameWhy(tt, PaintEv(e, tt))
+         [] e.ev = "paint"    -> PaintWhy(e, tt)
          [] OTHER             -> "unknown-event"
 
 Detail(e, tt) ==
-  CASE e.ev = "paint" -> [bad |-> FirstBad(tt, PaintEv(e, tt))]
+  CASE e.ev = "paint" -> [bad |-> S!FirstBad(Shown(tt), S!Want(e.tree, tt.rows, tt.cols), tt.rows, tt.cols)]
     [] e.ev = "draw"  -> [kinds |-> L!BadKinds(e.root) \cup L!BadProbes(e.probes),
                           maxw |-> e.maxw, maxh |-> e.maxh, w |-> e.root.w, h |-> e.root.h, pmsg |-> e.pmsg]
     [] e.ev = "write" -> [w |-> e.w, h |-> e.h, c |-> e.c, r |-> e.r, changed |-> e.changed, pmsg |-> e.pmsg]
